@@ -4,6 +4,8 @@ import (
 	"bytes"
 	"crypto/sha256"
 	"fmt"
+	"reflect"
+	"slices"
 	"sort"
 	"strings"
 
@@ -290,12 +292,47 @@ func runC10(c *mon.Ctx) {
 			return true
 		}
 		var sub *sfnt.Font
-		if k.Guard("Subset", func() { sub = f.Subset(append([]glyph.ID{}, list...)) }) {
+		// the glyph list is the caller's too: it is handed over in a slice of
+		// its own (with or without spare capacity) and, in three cases of
+		// four, reused for something else as soon as Subset has returned
+		arg := make([]glyph.ID, len(list), len(list)+(k.Index/4%2)*8)
+		copy(arg, list)
+		if k.Guard("Subset", func() { sub = f.Subset(arg) }) {
 			return
 		}
 		k.Eval()
 		if !receiverUnchanged("Subset") {
 			return
+		}
+		if !reflect.DeepEqual([]glyph.ID(arg), []glyph.ID(list)) {
+			k.Fail("mismatch", "callers-list-changed", "Subset changed the glyph list it was given: %v -> %v (%s)", list, arg, desc)
+			return
+		}
+		if reuse := k.Index % 4; reuse != 0 {
+			subBytes := func() []byte {
+				buf := &bytes.Buffer{}
+				if pv, _ := mon.Try(func() { sub.Write(buf) }); pv != nil {
+					return nil
+				}
+				return buf.Bytes()
+			}
+			b1 := subBytes()
+			switch reuse {
+			case 1:
+				clear(arg)
+			case 2:
+				slices.Reverse(arg)
+			default:
+				for i := range arg {
+					arg[i] = glyph.ID(n - 1)
+				}
+			}
+			k.Eval()
+			if b2 := subBytes(); b1 != nil && !bytes.Equal(b1, b2) {
+				k.Fail("mismatch", "subset-follows-callers-list", "the subset is written differently (%d vs %d bytes, first difference at byte %d) after the caller reused the slice that held the glyph list (%s)", len(b1), len(b2), firstDiff(b1, b2), desc)
+				return
+			}
+			k.Class("callers-list-reused")
 		}
 		m := sub.NumGlyphs()
 		if m < len(list) {
@@ -758,7 +795,7 @@ func runC10(c *mon.Ctx) {
 		}
 		k.Class("cff-outlines-subset:" + info.Kind)
 	})
-	c.Require("list:just-below-256", "list:ligature-chain-components-only", "kind=glyf", "kind=cff", "kind=cid", "cmap-compared", "encoding-compared", "kerning-compared", "gsub-rules-compared",
+	c.Require("callers-list-reused", "list:just-below-256", "list:ligature-chain-components-only", "kind=glyf", "kind=cff", "kind=cid", "cmap-compared", "encoding-compared", "kerning-compared", "gsub-rules-compared",
 		"written-and-read-back", "original-font-unchanged", "extras-appended:glyf", "cff-outlines-subset:cff", "cff-outlines-subset:cid")
 }
 
